@@ -63,13 +63,23 @@ def build_doc(case, d):
         item = {"type": "http_placeholders", "url": "http://127.0.0.1:9/values", "timeout": 1, "include": ["ph"]}
     elif kind == "command":
         item = {"type": "command_placeholders", "cmd": ["/bin/echo", "alpha"], "include": ["ph"]}
+    elif kind == "jcmd":  # the template text loads a pipeline of its own, handing ITSELF the opt-in argument
+        inner = "transformations:\n  - type: command_placeholders\n    cmd: ['/bin/echo', 'alpha']\n"
+        item = {"type": "template", "template": "{% set p = pipeline.from_yaml(" + repr(inner) + ", allow_external_sources=True) %}"
+                "{{ p.items[0].transformation.placeholder_replacements(none) | list }}{{ query }}"}
+    elif kind == "jvars":
+        inner = {"postprocessing": [{"type": "template", "template": "x", "vars": os.path.join(d, varspath)}]}
+        item = {"type": "template", "template": "{% set p = pipeline.from_dict(" + repr(inner) + ", allow_template_vars=True) %}{{ query }}"}
+    elif kind == "jfile":  # file access through the path object of the rule's source location
+        item = {"type": "template", "template": "{{ rule.source.path.joinpath(" + repr(os.path.join(d, "values.txt")) + ").read_text() }}{{ query }}"}
     elif kind == "ptemplate":
         item = {"type": "template", "template": "{{ query }}", "vars": os.path.join(d, varspath)}
     else:
         item = {"type": "template", "template": "{{ queries | join(',') }}", "vars": os.path.join(d, varspath)}
     if "item" in inject:
         item.update(optins(d, kind))
-    stage = {"file": "transformations", "http": "transformations", "command": "transformations", "ptemplate": "postprocessing", "ftemplate": "finalizers"}[kind]
+    stage = {"file": "transformations", "http": "transformations", "command": "transformations", "ptemplate": "postprocessing", "ftemplate": "finalizers",
+             "jcmd": "postprocessing", "jvars": "postprocessing", "jfile": "postprocessing"}[kind]
     node = item
     for level in range(1, depth + 1):
         if stage == "finalizers":
@@ -113,7 +123,7 @@ def drive_case(case):
         sys.addaudithook(_hook)
         _HOOKED[0] = True
     d = _workdir()
-    cap = "ext" if case["kind"] in ("file", "http", "command") else "vars"
+    cap = "ext" if case["kind"] in ("file", "http", "command", "jcmd", "jfile") else "vars"
     envname = "PYSIGMA_ALLOW_EXTERNAL_SOURCES" if cap == "ext" else "PYSIGMA_ALLOW_VARS_EXECUTION"
     saved = {k: os.environ.get(k) for k in ("PYSIGMA_ALLOW_EXTERNAL_SOURCES", "PYSIGMA_ALLOW_VARS_EXECUTION")}
     for k in saved:
@@ -139,8 +149,11 @@ def drive_case(case):
         del EVENTS[:]
         p = ProcessingPipeline.from_yaml(text, **kwargs)
         o["bit"] = _find_bits(p)
-        rule = {"title": "t", "logsource": {"category": "c"}, "detection": {"sel": {"f|expand": "%ph%"}, "condition": "sel"}}
-        TextQueryTestBackend(p).convert(SigmaCollection.from_dicts([rule]))
+        # (template kinds have no placeholder item: their rule must convert up to the template stage)
+        rule = {"title": "t", "logsource": {"category": "c"}, "detection": {"sel": {"f|expand": "%ph%"} if cap == "ext" and not case["kind"].startswith("j") else {"f": "v"}, "condition": "sel"}}
+        from sigma.exceptions import SigmaRuleLocation
+
+        TextQueryTestBackend(p).convert(SigmaCollection.from_dicts([rule], source=SigmaRuleLocation(os.path.join(d, "base", "pipeline.yml"))))
         o["ok"] = True
     except Exception as e:  # noqa: BLE001
         o["exc"] = type(e).__name__
